@@ -10,6 +10,7 @@ package main
 
 import (
 	"bufio"
+	"encoding/binary"
 	"fmt"
 	"math"
 	"math/rand"
@@ -44,11 +45,28 @@ func (i *inst) String() string {
 
 // buildFetch renders a fetch response with a record set of the given physical layout; readN as in connfake.Shape.
 func buildFetch(r *rand.Rand, v int16, magic int8, n, batches int, codec protocol.Attributes, readN int) *inst {
+	return buildFetchTrunc(r, v, magic, n, batches, codec, readN, 0)
+}
+
+// buildFetchTrunc: the set is truncated by `trunc` bytes INSIDE an honest frame (what a broker does at MaxBytes): the
+// records handed out must be a prefix of the stored ones (checked by the fetch op's digest), the Conn stays aligned.
+func buildFetchTrunc(r *rand.Rand, v int16, magic int8, n, batches int, codec protocol.Attributes, readN, trunc int) *inst {
 	op := connfake.OpByName("fetch")
 	sh := &connfake.Shape{Topic: topic, Offset: int64(r.Intn(50)), ReadN: readN}
 	set, msgs, base, err := connfake.RecordSet(r, magic, sh.Offset, n, batches, codec)
 	if err != nil {
 		panic(err)
+	}
+	if trunc > 0 && len(set) > 12 {
+		// never into the first batch / message (offset 8 bytes, length 4 bytes, then `length` bytes): a broker returns
+		// at least one complete one; a set shorter than that is answered with io.ErrUnexpectedEOF and a closed Conn
+		first := 12 + int(binary.BigEndian.Uint32(set[8:12]))
+		if trunc > len(set)-first {
+			trunc = len(set) - first
+		}
+		if trunc > 0 {
+			set = set[:len(set)-trunc]
+		}
 	}
 	sh.Offset, sh.Set, sh.Want, sh.HWM = base, set, msgs, base+int64(n)
 	w := &connfake.W{}
@@ -537,6 +555,19 @@ func main() {
 					a.sh.Via = via
 					emit(a, follower(a))
 				}
+			}
+		}
+	}
+	// a set truncated inside an honest frame (MaxBytes): the batch ends early (io.EOF after a prefix of the records, or
+	// an error when not even one complete record is there), the Conn stays aligned
+	for _, v := range connfake.OpByName("fetch").Versions {
+		for _, magic := range []int8{1, 2} {
+			if magic == 2 && v < 4 {
+				continue
+			}
+			for _, trunc := range []int{1, 7, 20, 40, 70, 1000} {
+				a := buildFetchTrunc(r, v, magic, 5, 2, 0, 0, trunc)
+				emit(a, follower(a))
 			}
 		}
 	}
